@@ -41,11 +41,13 @@ META = {
     "tables": [],
     "files": ["asyncfix/journaler.py"],
     "rule": "a case is one (operation sequence, crash point) pair executed by a real child process on a real SQLite file: "
-            "all sequences over a 12-operation alphabet (create/load new and existing sessions, persist in/out incl. duplicates, "
-            "set_seq_num incl. refused, reopen, listing) up to a length bound plus random sequences (lenient number spellings, "
-            "malformed messages, negative / 2^62 numbers, several sessions), each x every execute/commit call boundary (before and "
-            "after; DDL and SELECTs included) x every operation boundary x close()/del/exit; non-trivial when death is inside a "
-            "writing operation after at least one of its statements ran; distinct by (canonical op list, crash point)",
+            "(a) all sequences over a 7 (quick) / 12 (thorough; 10 at length 4) operation alphabet (create/load new and existing "
+            "sessions, persist in/out incl. duplicates, set_seq_num incl. refused, reopen, listing) up to length 3 / 4, each x every crash point of its "
+            "last operation (every prefix is a sequence of its own): before each execute/commit call, and the boundary after it; "
+            "(b) random longer sequences (lenient number spellings, malformed messages, negative / 2^62 numbers, several sessions) x "
+            "every execute/commit call boundary (before and after; DDL and SELECTs included) x every operation boundary x "
+            "close()/del/exit in a child, plus a crash-free run of every sequence; non-trivial when death is inside a writing "
+            "operation after at least one of its statements ran; distinct by (canonical op list, crash point)",
     "trusted_base": [
         "SQLite's atomic commit / hot-journal rollback and Python sqlite3's implicit-BEGIN rule are MODELLED in Fix/Journal.v; "
         "this harness validates the model against real files and real process deaths (os._exit in a forked child), "
@@ -85,10 +87,12 @@ class _State:
         self.trace = []         # [in_op, kind, is_prim] per raw call
         self.commits_in_op = 0  # commit calls that returned during the operation in flight
 
+    def report(self, where):
+        return {"results": self.results, "cum": self.cum, "prims": self.prims, "raw": self.raw,
+                "in_op": self.in_op, "commits_in_op": self.commits_in_op, "where": where, "trace": self.trace}
+
     def die(self, where):
-        rep = {"results": self.results, "cum": self.cum, "prims": self.prims, "raw": self.raw,
-               "in_op": self.in_op, "commits_in_op": self.commits_in_op, "where": where, "trace": self.trace}
-        os.write(self.wfd, json.dumps(rep).encode())
+        os.write(self.wfd, json.dumps(self.report(where)).encode())
         os._exit(0)
 
     def before(self, kind, is_prim):
@@ -148,34 +152,69 @@ class _PConn:
             raise
         self._st.after("COMMIT", True)
 
+    def execute(self, sql, params=()):
+        return self.cursor().execute(sql, params)
+
+    def __enter__(self):            # `with conn:` commits on success, rolls back on an exception
+        return self
+
+    def __exit__(self, et, ev, tb):
+        if et is None:
+            self.commit()
+        else:
+            self._conn.rollback()
+        return False
+
     def __getattr__(self, name):
         return getattr(self._conn, name)
 
 
-def child_main(path, ops, spec, wfd):
+def drive(path, ops, st):
+    """Run ops on a real Journaler whose sqlite3 connection is the counting / dying proxy."""
     import sqlite3
-    st = _State(spec, wfd)
+    spec = st.spec
     real_connect = sqlite3.connect
     sqlite3.connect = lambda *a, **kw: _PConn(real_connect(*a, **kw), st)
-    im = jc.Impl(path)
-    if spec[0] == "op" and spec[1] == 0:
-        st.die("op-boundary")
-    for idx, op in enumerate(ops):
-        st.in_op, st.commits_in_op = idx, 0
-        r = im.step(op)
-        st.results.append(r)
-        st.cum.append(st.prims)
-        st.in_op = None
-        if spec[0] == "op" and spec[1] == idx + 1:
+    try:
+        im = jc.Impl(path)
+        if spec[0] == "op" and spec[1] == 0:
             st.die("op-boundary")
-    if spec[0] == "none":
-        if spec[1] == "close":
-            im.close()
-        elif spec[1] == "del":
-            import gc
-            im.j = None
-            gc.collect()
+        for idx, op in enumerate(ops):
+            st.in_op, st.commits_in_op = idx, 0
+            r = im.step(op)
+            st.results.append(r)
+            st.cum.append(st.prims)
+            st.in_op = None
+            if spec[0] == "op" and spec[1] == idx + 1:
+                st.die("op-boundary")
+        if spec[0] == "none":
+            if spec[1] in ("close", "close-in-process"):
+                im.close()
+            elif spec[1] == "del":
+                import gc
+                im.j = None
+                gc.collect()
+    finally:
+        sqlite3.connect = real_connect
+
+
+def child_main(path, ops, spec, wfd):
+    st = _State(spec, wfd)
+    drive(path, ops, st)
     st.die("end")
+
+
+def dry_run(ops):
+    """Crash-free run inside the worker process (no process death needed): call trace, primitive
+    counts per operation, results, and what a fresh Journaler sees after the normal close."""
+    d = jc.tmpdir()
+    path = os.path.join(d, "j.db")
+    try:
+        st = _State(["none", "close-in-process"], None)
+        drive(path, ops, st)
+        return st.report("end"), observe(path)
+    finally:
+        shutil.rmtree(d, ignore_errors=True)
 
 
 # ----------------------------------------------------------------------------------------
@@ -229,8 +268,9 @@ POST = b"8=FIX.4.4\x0134=1\x01after-recovery"
 
 def observe(path):
     """What a fresh Journaler on the file reports, and whether the journal is usable."""
-    im = jc.Impl(path)
+    im = None
     try:
+        im = jc.Impl(path)
         sessions = im.step([5])
         allm = im.step([6, None, None])
         loads, recs = [], []
@@ -255,22 +295,34 @@ def observe(path):
     except Exception as e:   # an unusable journal is an observation, not a harness crash
         return {"error": "%s: %s" % (type(e).__name__, str(e)[:200])}
     finally:
-        im.close()
+        if im is not None:
+            im.close()
 
 
-def specs_of(dry, nops, cap, salt):
-    """Every crash point of one sequence, from the call trace of its crash-free run."""
-    raw = dry["raw"]
-    idx = list(range(1, raw + 1))
-    if cap and len(idx) > cap:      # thorough tier, long sequences: an evenly spread deterministic subset
-        step = len(idx) / float(cap)
-        idx = sorted({idx[min(len(idx) - 1, int(i * step + (salt % 7) * step / 7.0))] for i in range(cap)})
+def specs_of(dry, nops, mode):
+    """Crash points of one sequence, from the call trace of its crash-free run.
+
+    full: every execute/commit call (DDL, SELECTs, statements, commits) x before/after, every
+          operation boundary, and the three normal ends in a real child process.
+    last: only the points that are new with respect to the sequence without its last operation
+          (used by the exhaustive enumeration, where every prefix is a sequence of its own): before
+          every call of the last operation, after its last call, and the boundary after it."""
+    trace = dry["trace"]
     out = []
-    for r in idx:
-        out.append(["raw", r, "before"])
-        out.append(["raw", r, "after"])
-    out += [["op", j] for j in range(nops + 1)]
-    out += [["none", "exit"], ["none", "del"]]
+    if mode == "full":
+        for r in range(1, dry["raw"] + 1):
+            out.append(["raw", r, "before"])
+            out.append(["raw", r, "after"])
+        out += [["op", j] for j in range(nops + 1)]
+        out += [["none", "close"], ["none", "exit"], ["none", "del"]]
+    else:
+        mine = [r for r in range(1, dry["raw"] + 1) if trace[r - 1][0] == nops - 1]
+        out += [["raw", r, "before"] for r in mine]
+        if mine and mode == "last+":
+            out.append(["raw", mine[-1], "after"])
+        out.append(["op", nops])
+        if nops == 1:
+            out += [["raw", 1, "before"], ["raw", 1, "after"], ["raw", 2, "before"], ["raw", 2, "after"], ["op", 0]]
     return out
 
 
@@ -281,26 +333,27 @@ def worker_main():
     out = sys.stdout
     for seq in job["seqs"]:
         ops = load(seq["ops"])
-        dry, dobs = crash_run(ops, ["none", "close"])
+        dry, dobs = dry_run(ops)
         res = {"id": seq["id"], "dry": dry, "dry_obs": dobs, "runs": []}
-        if "error" not in dry:
-            only = seq.get("specs")
-            for spec in (only if only is not None else specs_of(dry, len(ops), job.get("cap", 0), seq["id"])):
-                rep, obs = crash_run(ops, spec)
-                rep.pop("trace", None)
-                res["runs"].append({"spec": spec, "rep": rep, "obs": obs})
+        only = seq.get("specs")
+        for spec in (only if only is not None else specs_of(dry, len(ops), seq.get("mode", "full"))):
+            rep, obs = crash_run(ops, spec)
+            rep.pop("trace", None)
+            res["runs"].append({"spec": spec, "rep": rep, "obs": obs})
         out.write(json.dumps(res) + "\n")
         out.flush()
 
 
-def run_workers(seqs, cap=0, nproc=None, timeout=1400, specs=None):
-    """seqs: list of op lists.  Returns {id: result} computed by worker subprocesses."""
+def run_workers(seqs, modes=None, nproc=None, timeout=1400, specs=None):
+    """seqs: list of op lists; modes: crash-point selection per sequence (see specs_of).
+    Returns {id: result} computed by worker subprocesses (process creation is the bottleneck and
+    does not scale with the number of workers on the build machine: 8 workers)."""
     from vlib import core
-    nproc = nproc or core.NPROC
-    jobs = [{"cap": cap, "seqs": []} for _ in range(min(nproc, max(1, len(seqs))))]
-    order = sorted(range(len(seqs)), key=lambda i: -len(seqs[i]))
-    for n, i in enumerate(order):
-        item = {"id": i, "ops": show(seqs[i])}
+    nproc = nproc or 8
+    jobs = [{"seqs": []} for _ in range(min(nproc, max(1, len(seqs))))]
+    cost = lambda i: (-(len(seqs[i]) * (6 if (modes is None or modes[i] == "full") else 1)), i)
+    for n, i in enumerate(sorted(range(len(seqs)), key=cost)):
+        item = {"id": i, "ops": show(seqs[i]), "mode": modes[i] if modes else "full"}
         if specs is not None:
             item["specs"] = specs[i]
         jobs[n % len(jobs)]["seqs"].append(item)
@@ -433,21 +486,29 @@ ALPHABET = [
 ]
 
 
-def exhaustive(length):
-    """All sequences create(A,B) . w with w over ALPHABET, |w| < length; handle -1 = the latest handle."""
+# quick tier: process creation costs 10-100 ms on the build machine and does not parallelise, so the
+# quick alphabet keeps one representative per behaviour (load existing = transaction left open, new
+# session, persist out/in incl. the duplicate, set_seq_num that deletes / that only moves a counter, reopen)
+QUICK_ALPHABET = [ALPHABET[i] for i in (0, 1, 2, 4, 6, 7, 10)]
+
+
+MID_ALPHABET = [o for o in ALPHABET if o not in ([2, 0, 2, None], [5])]
+
+
+def exhaustive(n, alphabet):
+    """All sequences create(A,B) . w with w over the alphabet, |w| = n; handle -1 = the latest handle."""
     import itertools
     out = []
-    for n in range(0, length):
-        for w in itertools.product(ALPHABET, repeat=n):
-            ops, nh = [[0, "A", "B"]], 1
-            for o in w:
-                o = list(o)
-                if o[0] == 0:
-                    nh += 1
-                if o[0] == 1 and o[1] == -1:
-                    o[1] = nh - 1
-                ops.append(o)
-            out.append(ops)
+    for w in itertools.product(alphabet, repeat=n):
+        ops, nh = [[0, "A", "B"]], 1
+        for o in w:
+            o = list(o)
+            if o[0] == 0:
+                nh += 1
+            if o[0] == 1 and o[1] == -1:
+                o[1] = nh - 1
+            ops.append(o)
+        out.append(ops)
     return out
 
 
@@ -519,8 +580,8 @@ def evaluate(ctx, seqs, results, use_model=True):
     lines, where = [], []
     for i, ops in enumerate(seqs):
         res = results.get(i)
-        if res is None or "error" in res["dry"]:
-            raise RuntimeError("crash harness: no crash-free run for sequence %d: %r" % (i, res and res["dry"]))
+        if res is None:
+            raise RuntimeError("crash harness: no result for sequence %d" % i)
         total = res["dry"]["prims"]
         if model:
             sxo = jc.sx_ops(ops)
@@ -545,7 +606,7 @@ def evaluate(ctx, seqs, results, use_model=True):
                 if mo[1:] != want:
                     ctx.disagree(dict(case0, budget=k), want, mo[1:], "primitive-numbering")
                     break
-        runs = [{"spec": ["none", "close"], "rep": dry, "obs": res["dry_obs"]}] + res["runs"]
+        runs = [{"spec": ["none", "close-in-process"], "rep": dry, "obs": res["dry_obs"]}] + res["runs"]
         for run in runs:
             spec, rep, obs = run["spec"], run["rep"], run["obs"]
             case = dict(case0, spec=spec)
@@ -584,17 +645,35 @@ def evaluate(ctx, seqs, results, use_model=True):
                         ctx.disagree(dict(case, budget=k), obs["recs"], recs, "recovered-recover_messages")
 
 
-def run(ctx):
+def plan(ctx):
+    """Sequences and their crash-point selection.  The exhaustive part enumerates every sequence up
+    to the length bound, so each one only contributes the crash points of its last operation; the
+    random part (longer, several sessions, odd numbers) uses every crash point."""
     rng = ctx.rng
-    seqs = corpus() + exhaustive(ctx.scale(3, 4))
-    nrand = ctx.scale(70, 900)
-    for _ in range(nrand):
-        seqs.append(gen_seq(rng, rng.randrange(3, ctx.scale(7, 13))))
-    cap = ctx.scale(0, 60)
+    seqs = corpus()
+    modes = ["full"] * len(seqs)
+    if ctx.tier == "thorough":
+        levels = [(0, ALPHABET, "last+"), (1, ALPHABET, "last+"), (2, ALPHABET, "last+"), (3, MID_ALPHABET, "last")]
+    else:
+        levels = [(0, QUICK_ALPHABET, "last"), (1, QUICK_ALPHABET, "last"), (2, QUICK_ALPHABET, "last")]
+    for n, alphabet, mode in levels:
+        for ops in exhaustive(n, alphabet):
+            seqs.append(ops)
+            modes.append(mode)
+    for _ in range(ctx.scale(4, 30)):
+        seqs.append(gen_seq(rng, rng.randrange(4, ctx.scale(7, 10))))
+        modes.append("full")
+    return seqs, modes
+
+
+def run(ctx):
+    seqs, modes = plan(ctx)
     t = time.time()
-    results = run_workers(seqs, cap=cap)
+    results = run_workers(seqs, modes)
     ctx.extra["crash_runs_s"] = round(time.time() - t, 1)
-    ctx.extra["sequences"] = len(seqs)
+    ctx.extra["sequences"] = {"total": len(seqs), "exhaustive_last_op": sum(1 for x in modes if x != "full"),
+                              "all_crash_points": sum(1 for x in modes if x == "full"),
+                              "exhaustive_length_bound": ctx.scale(3, 4)}
     evaluate(ctx, seqs, results)
 
 
@@ -608,7 +687,7 @@ def search(ctx, cases):
         if c.get("ops") and key not in seen:
             seen.add(key)
             seqs.append(load(c["ops"]))
-    seqs = seqs[:40] + [gen_seq(rng, rng.randrange(3, 9)) for _ in range(ctx.scale(60, 400))]
+    seqs = seqs[:10] + [gen_seq(rng, rng.randrange(3, 8)) for _ in range(ctx.scale(6, 40))]
     evaluate(ctx, seqs, run_workers(seqs), use_model=False)
 
 
@@ -621,8 +700,7 @@ def replay(path):
     ops = load(case["ops"])
     specs = [case["spec"]] if case.get("spec") else None
     if specs is None:
-        dry, _ = crash_run(ops, ["none", "close"])
-        specs = specs_of(dry, len(ops), 0, 0)
+        specs = specs_of(dry_run(ops)[0], len(ops), "full")
     snaps, rc = snapshots(ops), 0
     for spec in specs:
         rep, obs = crash_run(ops, spec)
